@@ -13,6 +13,30 @@ CHECKS = {
                      "Exploration is the right level: the input space is unbounded, the oracle is exact.",
                 note="Trusted: the 30-line oracle in vlib/oracles.py; markers of equal magnitude and opposite sign are not generated.",
                 ref="DESIGN.md §3 C01"),
+    "C02": dict(cat="exploration", tech="runtime monitor: post-condition on Selector.fast_nondominated_sorting vs recursive rank oracle",
+                text="After every observed call of the sorter (generated populations in shuffled orders, every tiny population over a "
+                     "small alphabet in every order, populations inside NSGA-II/OMOPSO runs) each front_number is compared with the "
+                     "recursive rank definition computed on an independent dominance oracle.",
+                note="Trusted: oracle dominance/rank in vlib/oracles.py; each object appears once per list.",
+                ref="DESIGN.md §3 C02"),
+    "C03": dict(cat="exploration", tech="runtime monitors on crowding_distance / nondominated_truncate / TournamentSelector.select (pair tapped at the RNG)",
+                text="Closed-form crowding oracle (exact where the statement claims it, bounds elsewhere), truncation post-conditions "
+                     "(size, distinct designs, rank order, crowding order in the cut front) and tournament verdicts on the actually "
+                     "drawn pair, on generated inputs and inside real runs.",
+                note="Trusted: oracles; the random.sample tap identifies the drawn pair; near-equal vectors not generated.",
+                ref="DESIGN.md §3 C03"),
+    "C04": dict(cat="exploration", tech="runtime monitor: model-based checker (ND set of everything offered) after every Archive.add; truncate post-conditions",
+                text="Every add in thousands of generated histories (both comparators) is followed by comparison of the archive with "
+                     "the non-dominated set of everything offered, the return value with membership, eviction justification; "
+                     "permutation independence; truncate keeps the top feature values; invariants on archives inside real runs.",
+                note="Trusted: oracle ND set; epsilon histories use identical-or-separated vectors.",
+                ref="DESIGN.md §3 C04"),
+    "C20": dict(cat="exploration", tech="runtime monitor: equality/hash oracle on generated pairs + consequence probes (in, set, remove, truncate, generate)",
+                text="All non-empty coordinate subsets (n<=6) x deltas x signs plus random and hash-colliding pairs are compared with the "
+                     "coordinate-wise definition; symmetry, hash agreement and the container consequences are observed on the same "
+                     "pairs; GeneticAlgorithm.generate is driven with scripted children against a take-every-new-design model.",
+                note="Trusted: 10-line equality oracle; differences in (0, 1e-9) not generated.",
+                ref="DESIGN.md §3 C20"),
 }
 
 NOT_BUILT = "check not built yet in this session (design in DESIGN.md §3); not claimed until its monitor exists"
